@@ -539,6 +539,11 @@ def diagram_with(callables, enum_order, kwcase=None, second_group=False):
     return D
 
 
+def kwcase_free(case):
+    # C08 part (4) runs the same case twice under two keyword spellings and compares the runs: no extra invocations there
+    return case.get('kwcase') in (None, [0]) and 'fail_first' in case
+
+
 class CallModel(object):
     """call semantics for the reference evaluator"""
 
@@ -710,7 +715,8 @@ def run_case(case, res=None):
         # an invocation that fails first (a derived attribute read while self.n holds no number, a callable invoked without
         # its arguments): whatever the failure leaves behind must not change what the next, well-formed invocation delivers.
         # A failing body may have changed the population before it failed; then the rest of the case is not compared.
-        if case.get('fail_first') and (c.kind == 'derived' or c.params):
+        # (a derived attribute is always read once in vain first: a read that fails and a later good one is the everyday history)
+        if (case.get('fail_first') and c.params) or (c.kind == 'derived' and kwcase_free(case)):
             next_id = domain.id_generator.peek()
             try:
                 with TimeLimit(20):
